@@ -1030,6 +1030,15 @@ def oracle_stripe(i):
     i['_att'] = float(att)
     if not np.isfinite(att) or att < 40:
         return f'common disturbance attenuated by only {att:.1f} dB (< 40 dB): rms in {xin:.3g}, rms out {yout:.3g}'
+    # the repaired (dead, label 1) channels are inside the brain too: what is written there must be free of the disturbance as well
+    # (calibration on the unchanged tree, bad channels on ADC-group seams and probe ends: >= 61 dB)
+    if lab is not None:
+        for c in np.where(lab == 1)[0]:
+            yc = _rms(y[c:c + 1, sl])
+            ac = 300.0 if yc == 0 else 20 * np.log10(xin / yc)
+            if not np.isfinite(ac) or ac < 40:
+                return (f'on the repaired channel {int(c)} (label 1) the common disturbance is attenuated by only {ac:.1f} dB (< 40 dB) '
+                        f'relative to the good channels: rms in {xin:.3g}, rms out on that channel {yc:.3g}')
     return None
 
 
@@ -1218,6 +1227,10 @@ def _gen_stripe(rng, simple=False, lfp=None):
         i['n_outside'] = int(rng.integers(1, 60))
     elif r < 0.3:
         i['bad'] = sorted(int(c) for c in rng.choice(np.arange(5, 300), size=3, replace=False))
+    elif r < 0.45:     # dead channels on ADC-group seams and at the probe ends (where the sampling delay jumps)
+        a = PHYS_ADC[str(ver)][0] * 2
+        seams = [g * a + o for g in range(1, 8) for o in (0, 1, a - 2, a - 1)] + [0, 1, 382, 383]
+        i['bad'] = sorted(int(c) for c in rng.choice(seams, size=3, replace=False))
     return i
 
 
@@ -1770,6 +1783,9 @@ def search(ctx, reasons):
                 inp['version'], inp['nshank'] = str(VERSIONS[k % 4][0]), VERSIONS[k % 4][1]
                 inp['k_filter'] = bool((k // 4) % 2)
                 inp.pop('n_outside', None); inp.pop('bad', None)
+                if k >= 8:      # one dead channel on an ADC-group seam / at a probe end
+                    a = PHYS_ADC[inp['version']][0] * 2
+                    inp['bad'] = [[a, a - 1, 0, 383, 2 * a + 1, 3 * a - 2][(k // 8 + k) % 6]]
             if tryit('stripe', inp):
                 break
     if not any(f[1] == 'spike' for f in found):
